@@ -436,6 +436,38 @@ class SpecMixin:
             cid = self.hget(st, "$cls", o)
             leaf = z3.Or(cid == CLASS_IDS["Bucket"], cid == CLASS_IDS["Set"])
             return mk_bool(z3.Or(leaf, self.hget(st, "$wf", o)))
+        if f == "kset_of_children":     # { k | some child of the interior node holds k }
+            o = args[0].z
+            data = self.hget(st, "_data", o)
+            n_ = self.llen(st, data)
+            cR = self.lcontent(st, data, "R")
+            k = fresh("k", KS)
+            i = fresh("i", INT)
+            child = self.hget(st, "child", z3.Select(cR, i))
+            mem = self.sp_call(ast.parse("kmem(x, y)", mode="eval").body, st,
+                               {"x": SV("ref", child), "y": SV("K", k)}, ctx).z
+            return SV("kset", z3.Lambda([k], z3.Exists([i], z3.And(0 <= i, i < n_, mem))))
+        if f in ("lo", "hi", "kmem", "owfsub"):
+            # order view of a node: least key, greatest key, membership in its key set, "ordered subtree".
+            # A (sorted, non-empty) leaf: its first / last key and its key list; an interior node: ghost summaries.
+            o = args[0].z
+            cid = self.hget(st, "$cls", o)
+            leaf = z3.Or(cid == CLASS_IDS["Bucket"], cid == CLASS_IDS["Set"])
+            keys = self.hget(st, "_keys", o)
+            ck, nk = self.lcontent(st, keys, "K"), self.llen(st, keys)
+            if f == "lo":
+                return SV("K", z3.If(leaf, z3.Select(ck, 0), self.hget(st, "$lo", o)))
+            if f == "hi":
+                return SV("K", z3.If(leaf, z3.Select(ck, nk - 1), self.hget(st, "$hi", o)))
+            if f == "owfsub":
+                return mk_bool(z3.Or(leaf, self.hget(st, "$owf", o)))
+            k = args[1].z
+            if self.ground is None:
+                j = fresh("j", INT)
+                inleaf = z3.Exists([j], z3.And(0 <= j, j < nk, z3.Select(ck, j) == k))
+            else:
+                inleaf = z3.Or(*[z3.And(jj < nk, z3.Select(ck, jj) == k) for jj in range(self.ground + 1)])
+            return mk_bool(z3.If(leaf, inleaf, z3.Select(self.hget(st, "$kset", o), k)))
         if f == "checked":     # node._check(next) returned normally (learnt at a call site; see ghost 'learn')
             b = args[1].z if args[1].kind == "ref" else z3.IntVal(0)
             return mk_bool(CHECKED(args[0].z, b))
